@@ -2,34 +2,212 @@ import XcpProofs.Merge
 /-! `merge_extents` boundaries / well-formedness; the FIEMAP paging loop; the SEEK_DATA/SEEK_HOLE loop. -/
 namespace Xcp
 
+/-! ### `merge_extents` -/
+
+theorem mergeGo_boundaries (p : Option Extent) (l : List Extent) :
+    ∀ m ∈ mergeGo p l,
+      (∃ e ∈ pl p ++ l, e.start = m.start) ∧ (∃ e ∈ pl p ++ l, e.stop = m.stop) := by
+  induction l generalizing p with
+  | nil => cases p <;> simp [mergeGo, pl]
+  | cons e es ih =>
+    cases p with
+    | none =>
+      intro m hm
+      have := ih (some e) m (by simpa [mergeGo] using hm)
+      simpa [pl] using this
+    | some p =>
+      intro m hm
+      unfold mergeGo at hm
+      split at hm
+      · have := ih (some _) m hm
+        simp only [pl, List.cons_append, List.nil_append, List.mem_cons] at this ⊢
+        obtain ⟨⟨x, hx, h1⟩, ⟨y, hy, h2⟩⟩ := this
+        constructor
+        · rcases hx with rfl | hx
+          · exact ⟨p, Or.inl rfl, h1⟩
+          · exact ⟨x, Or.inr (Or.inr hx), h1⟩
+        · rcases hy with rfl | hy
+          · exact ⟨e, Or.inr (Or.inl rfl), h2⟩
+          · exact ⟨y, Or.inr (Or.inr hy), h2⟩
+      · simp only [List.mem_cons] at hm
+        rcases hm with rfl | hm
+        · exact ⟨⟨m, by simp [pl], rfl⟩, ⟨m, by simp [pl], rfl⟩⟩
+        · have := ih (some e) m hm
+          simp only [pl, List.cons_append, List.nil_append, List.mem_cons] at this ⊢
+          obtain ⟨⟨x, hx, h1⟩, ⟨y, hy, h2⟩⟩ := this
+          exact ⟨⟨x, Or.inr hx, h1⟩, ⟨y, Or.inr hy, h2⟩⟩
+
 /-- every merged extent starts at an input start and stops at an input stop -/
 theorem merge_boundaries (l : List Extent) :
     ∀ m ∈ mergeExtents l, (∃ e ∈ l, e.start = m.start) ∧ (∃ e ∈ l, e.stop = m.stop) := by
-  sorry
+  intro m hm
+  have := mergeGo_boundaries none l m hm
+  simpa [pl] using this
+
+/-- with an accumulator, the output is non-empty and begins where the accumulator begins -/
+theorem mergeGo_head (p : Extent) (l : List Extent) :
+    ∃ h t, mergeGo (some p) l = h :: t ∧ h.start = p.start := by
+  induction l generalizing p with
+  | nil => exact ⟨p, [], rfl, rfl⟩
+  | cons e es ih =>
+    unfold mergeGo
+    split
+    · obtain ⟨h, t, h1, h2⟩ :=
+        ih { start := p.start, stop := e.stop, shared := p.shared && e.shared }
+      exact ⟨h, t, h1, h2⟩
+    · exact ⟨p, _, rfl, rfl⟩
+
+theorem mergeGo_wf (p : Option Extent) (l : List Extent) (hw : WF (pl p ++ l)) :
+    WF (mergeGo p l) := by
+  induction l generalizing p with
+  | nil => cases p <;> simp_all [mergeGo, pl, WF]
+  | cons e es ih =>
+    cases p with
+    | none =>
+      have := ih (some e) (by simpa [pl] using hw)
+      simpa [mergeGo] using this
+    | some p =>
+      simp only [pl, List.cons_append, List.nil_append] at hw
+      obtain ⟨hp, hpe, hw'⟩ := hw
+      have he := WF_head hw'
+      unfold mergeGo
+      split
+      · rename_i heq
+        apply ih (some _)
+        simp only [pl, List.cons_append, List.nil_append]
+        cases es with
+        | nil => simp [WF]; omega
+        | cons f r => exact ⟨by simp; omega, hw'.2.1, hw'.2.2⟩
+      · have h1 := ih (some e) (by simpa [pl] using hw')
+        obtain ⟨h, t, e1, e2⟩ := mergeGo_head e es
+        rw [e1] at h1 ⊢
+        exact ⟨hp, by omega, h1⟩
 
 /-- merged output of a well-formed list is well-formed (ordered, non-empty, non-overlapping) -/
-theorem merge_wf (l : List Extent) (hw : WF l) : WF (mergeExtents l) := by
-  sorry
+theorem merge_wf (l : List Extent) (hw : WF l) : WF (mergeExtents l) :=
+  mergeGo_wf none l (by simpa [pl] using hw)
+
+/-! ### the FIEMAP paging loop -/
+
+theorem lastOf_eq_getLast? {α} (l : List α) : lastOf l = l.getLast? := by
+  induction l with
+  | nil => rfl
+  | cons a r ih =>
+    cases r with
+    | nil => rfl
+    | cons b r' => simp [lastOf, ih]
+
+/-- in a well-formed list the stops increase strictly -/
+theorem WF_stop_lt {e : Extent} {l : List Extent} (hw : WF (e :: l)) : ∀ x ∈ l, e.stop < x.stop := by
+  induction l generalizing e with
+  | nil => simp
+  | cons f r ih =>
+    obtain ⟨_, hef, hw'⟩ := hw
+    have hf := WF_head hw'
+    intro x hx
+    rcases List.mem_cons.mp hx with rfl | hx
+    · omega
+    · have := ih hw' x hx
+      omega
+
+/-- restarting FIEMAP at the stop of an extent yields exactly what follows that extent -/
+theorem WF_dropWhile (P B : List Extent) (le : Extent) (hw : WF (P ++ le :: B)) :
+    (P ++ le :: B).dropWhile (fun e => decide (e.stop ≤ le.stop)) = B := by
+  induction P with
+  | nil =>
+    simp only [List.nil_append] at hw ⊢
+    rw [List.dropWhile_cons_of_pos (by simp)]
+    cases B with
+    | nil => rfl
+    | cons b B' =>
+      have := WF_stop_lt hw b (by simp)
+      rw [List.dropWhile_cons_of_neg (by simp; omega)]
+  | cons a P ih =>
+    simp only [List.cons_append] at hw ⊢
+    have := WF_stop_lt hw le (by simp)
+    rw [List.dropWhile_cons_of_pos (by simp; omega)]
+    exact ih (WF_tail hw)
+
+/-- the page FIEMAP answers when `rest` is what remains after `fm_start` -/
+def pageOf (rest : List Extent) (slots : Nat) : List (Extent × Bool) :=
+  ((List.range (rest.take slots).length).zip (rest.take slots)).map
+    fun (i, e) => (e, decide (i + 1 = rest.length))
+
+theorem fiemapOf_eq (all : List Extent) (slots fmStart : Nat) :
+    fiemapOf all slots fmStart
+      = some (pageOf (all.dropWhile (fun e => decide (e.stop ≤ fmStart))) slots) := rfl
+
+theorem zipRange_concat {α β} (g : Nat × α → β) (P : List α) (x : α) :
+    ((List.range (P ++ [x]).length).zip (P ++ [x])).map g
+      = ((List.range P.length).zip P).map g ++ [g (P.length, x)] := by
+  rw [List.length_append, List.length_singleton, List.range_succ,
+    List.zip_append (by simp), List.map_append]
+  rfl
+
+theorem pageOf_map_fst (rest : List Extent) (slots : Nat) :
+    (pageOf rest slots).map (·.1) = rest.take slots := by
+  unfold pageOf
+  rw [List.map_map]
+  exact List.map_snd_zip (by simp)
+
+theorem pageOf_nil (slots : Nat) : pageOf [] slots = [] := by simp [pageOf]
+
+theorem lastOf_pageOf (rest : List Extent) (slots : Nat) (P : List Extent) (x : Extent)
+    (h : rest.take slots = P ++ [x]) :
+    lastOf (pageOf rest slots) = some (x, decide (P.length + 1 = rest.length)) := by
+  unfold pageOf
+  rw [h, zipRange_concat, lastOf_eq_getLast?, List.getLast?_concat]
+
+theorem mapExtentsLoop_all (all : List Extent) (hw : WF all) (slots : Nat) (hs : 0 < slots) :
+    ∀ (fuel : Nat) (pre rest : List Extent) (fmStart : Nat), all = pre ++ rest →
+      all.dropWhile (fun e => decide (e.stop ≤ fmStart)) = rest → rest.length + 1 ≤ fuel →
+      mapExtentsLoop (fiemapOf all slots) fuel fmStart pre = some (some all) := by
+  intro fuel
+  induction fuel with
+  | zero => intro _ _ _ _ _ h; omega
+  | succ f ih =>
+    intro pre rest fmStart hall hdrop hfuel
+    unfold mapExtentsLoop
+    rw [fiemapOf_eq, hdrop]
+    simp only
+    rcases List.eq_nil_or_concat (rest.take slots) with hnil | ⟨P, x, hPx⟩
+    · have hr : rest = [] := by
+        cases rest with
+        | nil => rfl
+        | cons a r =>
+          obtain ⟨k, rfl⟩ : ∃ k, slots = k + 1 := ⟨slots - 1, by omega⟩
+          simp at hnil
+      subst hr
+      simp [pageOf_nil, lastOf, hall]
+    · rw [List.concat_eq_append] at hPx
+      rw [lastOf_pageOf rest slots P x hPx]
+      simp only [pageOf_map_fst]
+      have hlen : (rest.take slots).length = P.length + 1 := by rw [hPx]; simp
+      rw [List.length_take] at hlen
+      by_cases hlast : P.length + 1 = rest.length
+      · simp only [hlast, decide_true, if_true]
+        rw [List.take_of_length_le (by omega), ← hall]
+      · simp only [hlast, decide_false]
+        have hsplit : all = (pre ++ P) ++ x :: rest.drop slots := by
+          rw [hall, List.append_assoc]
+          congr 1
+          rw [← List.singleton_append, ← List.append_assoc, ← hPx, List.take_append_drop]
+        apply ih (pre ++ rest.take slots) (rest.drop slots) x.stop
+        · rw [hall, List.append_assoc, List.take_append_drop]
+        · rw [hsplit]
+          exact WF_dropWhile _ _ _ (hsplit ▸ hw)
+        · rw [List.length_drop]; omega
 
 /-- the paging loop returns exactly the file's extent list, for any number of extents and any page size ≥ 1 -/
 theorem mapExtents_all_pages (all : List Extent) (hw : WF all) (slots : Nat) (hs : 0 < slots) :
     mapExtents (fiemapOf all slots) (all.length + 2) = some (some all) := by
-  sorry
-
-/-- the segment loop terminates within `len + 1` iterations and its segments are ordered, inside the file -/
-theorem segments_ordered (s : SeekOracle) (src : Bytes) (hl : SeekLegal s src) :
-    List.Pairwise (fun a b => a.2 ≤ b.1) (segmentsOf s src.length (src.length + 1) 0) ∧
-    ∀ seg ∈ segmentsOf s src.length (src.length + 1) 0, seg.1 ≤ seg.2 ∧ seg.2 ≤ src.length := by
-  sorry
-
-/-- every byte that is not zero lies in a reported segment -/
-theorem segments_cover (s : SeekOracle) (src : Bytes) (hl : SeekLegal s src) (i : Nat) (hi : i < src.length)
-    (hnz : src[i]? ≠ some 0) :
-    ∃ seg ∈ segmentsOf s src.length (src.length + 1) 0, seg.1 ≤ i ∧ i < seg.2 := by
-  sorry
-
-/-- the concrete layout oracle (what the executable model runs) satisfies the SEEK contract -/
-theorem layout_oracle_legal (L : Layout) (src : Bytes) (h : LayoutSound L src) : SeekLegal L.oracle src := by
-  sorry
+  unfold mapExtents
+  apply mapExtentsLoop_all all hw slots hs (all.length + 2) [] all 0 rfl
+  · cases all with
+    | nil => rfl
+    | cons a r =>
+      have := WF_head hw
+      rw [List.dropWhile_cons_of_neg (by simp; omega)]
+  · omega
 
 end Xcp
